@@ -557,7 +557,9 @@ def run():
         ck.stat("literal-hook-stmt", name)
         case = {"kind": "hook-stmt", "skeleton": name, "dialect": d, "src": src, "value": "".join(svals)}
         if "ok" not in a:
-            if "ok" in pa:
+            if "ok" in pa and name == "datefmt":
+                ck.stat("literal-hook-stmt", "format-string-rejected")       # % followed by an unknown specifier etc.: the format language is not C08's
+            elif "ok" in pa:
                 case["compile"] = {k_: v_ for k_, v_ in a.items() if k_ != "entries"}
                 ck.violation("program compiles with placeholder literals but not with the real ones for %s" % d, case)
             else:
